@@ -672,8 +672,22 @@ func feedAggs(target map[string]aggregator.AggregatorFunction, specs []aggSpec, 
 			}
 			continue
 		}
-		agg.Add(toAggregateValue(val))
+		if keepsRawValue(spec.aggType) {
+			agg.Add(val) // collect / first_value ... report the value itself: "007" stays a text
+		} else {
+			agg.Add(toAggregateValue(val))
+		}
 	}
+}
+
+// keepsRawValue reports whether an aggregate hands input values on as they are
+// (value-carrying aggregates), as opposed to computing with them numerically.
+func keepsRawValue(t aggregator.AggregateType) bool {
+	switch strings.ToLower(string(t)) {
+	case "collect", "first_value", "last_value", "nth_value", "deduplicate", "merge_agg", "count":
+		return true
+	}
+	return false
 }
 
 // feedTriggerAggs feeds row values into trigger-only aggregators (those not
